@@ -451,4 +451,515 @@ theorem recogSetR_sound (env : Env) (hd : 2 ≤ env.depth) (buf key val : Bytes)
                                     simpa [setHdrL, nameIn] using this
                                 · simp at h
                               · simp at h
+theorem nameIn_take (buf : Bytes) : nameIn buf = nameIn (buf.take 13) := by
+  unfold nameIn
+  simp [List.take_drop, List.take_take]
+
+theorem recogGetR_name (h : Nat) (buf key : Bytes) (total : Nat) (hr : recogGetR h buf = .get key total) :
+    nameIn buf = [71, 69, 84] ∨ nameIn buf = [103, 101, 116] := by
+  unfold recogGetR at hr
+  split at hr
+  · simp at hr
+  · rename_i hsw
+    simp only [Decidable.not_not, Bool.or_eq_true] at hsw
+    rw [nameIn_take]
+    cases hsw with
+    | inl hs => left; have e : buf.take 13 = getHdrU := (startsWith_take buf getHdrU hs).1; rw [e]; rfl
+    | inr hs => right; have e : buf.take 13 = getHdrL := (startsWith_take buf getHdrL hs).1; rw [e]; rfl
+
+theorem recogSetR_name (h : Nat) (buf key val : Bytes) (total : Nat) (hr : recogSetR h buf = .set key val total) :
+    nameIn buf = [83, 69, 84] ∨ nameIn buf = [115, 101, 116] := by
+  unfold recogSetR at hr
+  split at hr
+  · simp at hr
+  · rename_i hsw
+    simp only [Decidable.not_not, Bool.or_eq_true] at hsw
+    rw [nameIn_take]
+    cases hsw with
+    | inl hs => left; have e : buf.take 13 = setHdrU := (startsWith_take buf setHdrU hs).1; rw [e]; rfl
+    | inr hs => right; have e : buf.take 13 = setHdrL := (startsWith_take buf setHdrL hs).1; rw [e]; rfl
+
+/-- a repaired GET recogniser takes a GET frame, declines, or (never: `recogGetR_no_crash`) panics —
+    it never answers "need more data" -/
+theorem recogGetR_cases (h : Nat) (buf : Bytes) :
+    (∃ k t, recogGetR h buf = .get k t) ∨ recogGetR h buf = .notFast := by
+  unfold recogGetR
+  split
+  · exact Or.inr rfl
+  · split
+    · exact Or.inr rfl
+    · simp only []
+      split
+      · exact Or.inr rfl
+      · split
+        · exact Or.inr rfl
+        · split
+          · exact Or.inr rfl
+          · split
+            · exact Or.inr rfl
+            · split
+              · exact Or.inr rfl
+              · rename_i tot hadd
+                have ha := addU2_checked _ _ _ hadd
+                split
+                · exact Or.inr rfl
+                · split
+                  · rename_i hsl
+                    exfalso
+                    rw [slice_some buf _ _ (by omega) (by omega)] at hsl
+                    simp at hsl
+                  · split
+                    · exact Or.inl ⟨_, _, rfl⟩
+                    · exact Or.inr rfl
+
+theorem recogSetR_cases (h : Nat) (buf : Bytes) :
+    (∃ k v t, recogSetR h buf = .set k v t) ∨ recogSetR h buf = .notFast := by
+  unfold recogSetR
+  split
+  · exact Or.inr rfl
+  · split
+    · exact Or.inr rfl
+    · simp only []
+      split
+      · exact Or.inr rfl
+      · split
+        · exact Or.inr rfl
+        · split
+          · exact Or.inr rfl
+          · split
+            · exact Or.inr rfl
+            · rename_i keyLen _
+              split
+              · exact Or.inr rfl
+              · rename_i keyEnd vls hke
+                rename_i kcrlf _ _ _ _ _
+                have hke' : keyEnd = h + 1 + kcrlf + 2 + keyLen ∧ vls = keyEnd + 2 ∧ vls < W := by
+                  cases h1 : addU true (h + 1 + kcrlf + 2) keyLen with
+                  | none => simp [h1] at hke
+                  | some e =>
+                    cases h2 : addU true e 2 with
+                    | none => simp [h1, h2] at hke
+                    | some v =>
+                      simp [h1, h2] at hke
+                      obtain ⟨he, hv⟩ := hke
+                      subst he hv
+                      have a1 := addU_checked _ _ _ h1
+                      have a2 := addU_checked _ _ _ h2
+                      exact ⟨a1.1, a2.1, by omega⟩
+                by_cases hnm : buf.length ≤ vls
+                · rw [if_pos hnm]; exact Or.inr rfl
+                · rw [if_neg hnm]
+                  by_cases h36 : buf[vls]? ≠ some 36
+                  · rw [if_pos h36]; exact Or.inr rfl
+                  · rw [if_neg h36]
+                    cases hm : memchrCR (buf.drop (vls + 1)) with
+                    | none => exact Or.inr rfl
+                    | some vcrlf =>
+                      simp only []
+                      split
+                      · exact Or.inr rfl
+                      · cases hpu : parseUsize ((buf.drop (vls + 1)).take vcrlf) with
+                        | none => exact Or.inr rfl
+                        | some valLen =>
+                          simp only []
+                          cases hadd : (addU true (vls + 1 + vcrlf + 2) valLen).bind (fun e => addU true e 2) with
+                          | none => exact Or.inr rfl
+                          | some total =>
+                            simp only []
+                            have ht' := addU2_checked _ _ _ hadd
+                            by_cases hlen : buf.length < total
+                            · rw [if_pos hlen]; exact Or.inr rfl
+                            · rw [if_neg hlen]
+                              rw [slice_some buf _ keyEnd (by omega) (by omega)]
+                              rw [slice_some buf _ _ (by omega) (by omega)]
+                              simp only []
+                              split
+                              · exact Or.inl ⟨_, _, _, rfl⟩
+                              · exact Or.inr rfl
+
+/-- the repaired fast path takes a GET or a SET frame (only outside MULTI), or declines -/
+theorem fastPathR_cases (h : Nat) (inTx : Bool) (buf : Bytes) :
+    (∃ k t, fastPathR h inTx buf = .get k t ∧ recogGetR h buf = .get k t ∧ inTx = false) ∨
+    (∃ k v t, fastPathR h inTx buf = .set k v t ∧ recogSetR h buf = .set k v t ∧ inTx = false) ∨
+    fastPathR h inTx buf = .notFast := by
+  unfold fastPathR
+  cases inTx with
+  | true => exact Or.inr (Or.inr rfl)
+  | false =>
+    simp only [Bool.false_eq_true, if_false]
+    split
+    · exact Or.inr (Or.inr rfl)
+    · cases recogGetR_cases h buf with
+      | inl hg =>
+        obtain ⟨k, t, hg⟩ := hg
+        rw [hg]
+        exact Or.inl (by refine ⟨k, t, ?_, ?_, ?_⟩ <;> first | rfl | trivial)
+      | inr hg =>
+        rw [hg]
+        simp only []
+        cases recogSetR_cases h buf with
+        | inl hs =>
+          obtain ⟨k, v, t, hs⟩ := hs
+          rw [hs]
+          exact Or.inr (Or.inl (by refine ⟨k, v, t, ?_, ?_, ?_⟩ <;> first | rfl | trivial))
+        | inr hs =>
+          rw [hs]
+          exact Or.inr (Or.inr rfl)
+
+/-- the path label of an action erased -/
+def Action.noPath : Action → Action
+  | .exec f _ => .exec f .generic
+  | a => a
+
+/-- the same configuration for a user WITHOUT unrestricted key access: the repaired code enters
+    neither the fast path nor the collectors -/
+def Config.off (cfg : Config) : Config := { cfg with unrestricted := false }
+
+/-- the repaired code as the fix leaves it: HEADER_LEN = 13, the decoder after its fixes, two decoder
+    frames of stack -/
+def Repaired13 (cfg : Config) : Prop :=
+  cfg.repaired = true ∧ cfg.headerLen = 13 ∧ cfg.codec = codec1 ∧ 2 ≤ cfg.env.depth
+
+theorem Config.off_of_false (cfg : Config) (h : cfg.unrestricted = false) : cfg.off = cfg := by
+  cases cfg
+  simp only [Config.off] at *
+  simp [h]
+
+theorem isWsName_get : isWsName [71, 69, 84] = false ∧ isWsName [103, 101, 116] = false ∧
+    isWsName [83, 69, 84] = false ∧ isWsName [115, 101, 116] = false := by decide
+
+theorem seqLoop_transparent (cfg : Config) (hR : Repaired13 cfg) :
+    ∀ (f : Nat) (buf : Bytes) (inTx : Bool), Small buf →
+      (seqLoop cfg f buf inTx).1.map Action.noPath = (seqLoop cfg.off f buf inTx).1.map Action.noPath ∧
+      (seqLoop cfg f buf inTx).2.1 = (seqLoop cfg.off f buf inTx).2.1 ∧
+      (seqLoop cfg f buf inTx).2.2.1 = (seqLoop cfg.off f buf inTx).2.2.1 ∧
+      (seqLoop cfg f buf inTx).2.2.2 = (seqLoop cfg.off f buf inTx).2.2.2 := by
+  obtain ⟨hrep, h13, hcodec, hdepth⟩ := hR
+  intro f
+  induction f with
+  | zero => intro buf inTx _; simp [seqLoop]
+  | succ f ih =>
+    intro buf inTx hs
+    cases hu : cfg.unrestricted with
+    | false => rw [Config.off_of_false cfg hu]; exact ⟨rfl, rfl, rfl, rfl⟩
+    | true =>
+      have hoff : fastPathC cfg.off inTx buf = .notFast := by simp [fastPathC, Config.off]
+      have hon : fastPathC cfg inTx buf = fastPathR 13 inTx buf := by simp [fastPathC, hu, hrep, h13]
+      have hc : cfg.off.codec = codec1 := by simp [Config.off, hcodec]
+      have he : cfg.off.env = cfg.env := rfl
+      have hg : cfg.off.nameGuard = cfg.nameGuard := rfl
+      rw [seqLoop, seqLoop, hoff, hon, hc, he, hg, hcodec]
+      simp only []
+      rcases fastPathR_cases 13 inTx buf with ⟨k, t, hfp, hrg, htx⟩ | ⟨k, v, t, hfp, hrs, htx⟩ | hnf
+      · -- the fast path took a GET
+        obtain ⟨hp, ht14, htl, _⟩ := recogGetR_sound cfg.env hdepth buf k t hs hrg
+        have hp' : (parseG codec1 cfg.env buf).out = .ok (getFrameN buf k) t := hp
+        rw [hfp, hp']
+        subst htx
+        have hnp : namePanics cfg.nameGuard false (getFrameN buf k) = false := by
+          unfold namePanics getFrameN
+          rcases recogGetR_name 13 buf k t hrg with hn | hn <;> rw [hn] <;> simp [isWsName_get]
+        have htxa : txAfter false (getFrameN buf k) = false := by
+          rcases recogGetR_name 13 buf k t hrg with hn | hn <;>
+            simp [txAfter, cmdName, getFrameN, hn, upper, nameMULTI]
+        simp only [hnp, htxa, Bool.false_eq_true, if_false]
+        have := ih (buf.drop t) false (hs.drop t)
+        have hfr : getFrameC cfg buf k = getFrameN buf k := by simp [getFrameC, hrep]
+        rw [hfr]
+        refine ⟨?_, this.2.1, this.2.2.1, this.2.2.2⟩
+        simp only [List.map_cons, Action.noPath, this.1]
+      · -- the fast path took a SET
+        obtain ⟨hp, ht14, htl, _⟩ := recogSetR_sound cfg.env hdepth buf k v t hs hrs
+        have hp' : (parseG codec1 cfg.env buf).out = .ok (setFrameN buf k v) t := hp
+        rw [hfp, hp']
+        subst htx
+        have hnp : namePanics cfg.nameGuard false (setFrameN buf k v) = false := by
+          unfold namePanics setFrameN
+          rcases recogSetR_name 13 buf k v t hrs with hn | hn <;> rw [hn] <;> simp [isWsName_get]
+        have htxa : txAfter false (setFrameN buf k v) = false := by
+          rcases recogSetR_name 13 buf k v t hrs with hn | hn <;>
+            simp [txAfter, cmdName, setFrameN, hn, upper, nameMULTI]
+        simp only [hnp, htxa, Bool.false_eq_true, if_false]
+        have := ih (buf.drop t) false (hs.drop t)
+        have hfr : setFrameC cfg buf k v = setFrameN buf k v := by simp [setFrameC, hrep]
+        rw [hfr]
+        refine ⟨?_, this.2.1, this.2.2.1, this.2.2.2⟩
+        simp only [List.map_cons, Action.noPath, this.1]
+      · -- the fast path declined: both go the generic way
+        rw [hnf]
+        simp only []
+        cases hout : (parseG codec1 cfg.env buf).out with
+        | ok v k =>
+          simp only []
+          split
+          · exact ⟨rfl, rfl, rfl, rfl⟩
+          · have := ih (buf.drop k) (txAfter inTx v) (hs.drop k)
+            refine ⟨?_, this.2.1, this.2.2.1, this.2.2.2⟩
+            simp only [List.map_cons, Action.noPath, this.1]
+        | incomplete _ => exact ⟨rfl, rfl, rfl, rfl⟩
+        | error _ => exact ⟨rfl, rfl, rfl, rfl⟩
+        | crash _ => exact ⟨rfl, rfl, rfl, rfl⟩
+/-- with the recognisers off every step of the loop consumes at least one byte: fuel beyond the
+    length of the buffer is never used -/
+theorem seqLoop_off_fuel (cfg : Config) (hu : cfg.unrestricted = false) (hcodec : cfg.codec = codec1) :
+    ∀ (f f' : Nat) (buf : Bytes) (inTx : Bool), Small buf → buf.length < f → buf.length < f' →
+      seqLoop cfg f buf inTx = seqLoop cfg f' buf inTx := by
+  intro f
+  induction f with
+  | zero => intro f' buf inTx _ h; omega
+  | succ f ih =>
+    intro f' buf inTx hs hf hf'
+    cases f' with
+    | zero => omega
+    | succ f' =>
+      have hfp : fastPathC cfg inTx buf = .notFast := by simp [fastPathC, hu]
+      rw [seqLoop, seqLoop, hfp, hcodec]
+      simp only []
+      cases hout : (parseG codec1 cfg.env buf).out with
+      | ok v k =>
+        simp only []
+        have hc := parseD_consumed codec1 codec1_good cfg.env.mem cfg.env.depth 0 buf hs v k hout
+        split
+        · rfl
+        · rw [ih f' (buf.drop k) (txAfter inTx v) (hs.drop k) (by simp; omega) (by simp; omega)]
+      | incomplete _ => rfl
+      | error _ => rfl
+      | crash _ => rfl
+
+/-- what the repaired GET collector consumes is what the loop with the recognisers off executes
+    first, frame by frame, on the generic path -/
+theorem collectGetR_off (cfg : Config) (hR : Repaired13 cfg) :
+    ∀ (cf : Nat) (buf : Bytes) (gets : List Val) (b1 : Bytes) (F : Nat), Small buf → buf.length < F →
+      collectGetR 13 cf buf = some (gets, b1) →
+      b1.length ≤ buf.length ∧
+      (seqLoop cfg.off F buf false).1 = gets.map (fun g => Action.exec g .generic) ++ (seqLoop cfg.off F b1 false).1 ∧
+      (seqLoop cfg.off F buf false).2 = (seqLoop cfg.off F b1 false).2 := by
+  obtain ⟨hrep, h13, hcodec, hdepth⟩ := hR
+  have hu : cfg.off.unrestricted = false := rfl
+  have hc : cfg.off.codec = codec1 := by simp [Config.off, hcodec]
+  intro cf
+  induction cf with
+  | zero =>
+    intro buf gets b1 F _ _ h
+    simp [collectGetR] at h
+    obtain ⟨h1, h2⟩ := h
+    subst h1 h2
+    simp
+  | succ cf ih =>
+    intro buf gets b1 F hs hF h
+    rw [collectGetR] at h
+    rcases recogGetR_cases 13 buf with ⟨k, t, hg⟩ | hg
+    · rw [hg] at h
+      simp only [] at h
+      obtain ⟨ks, r, e1, e2⟩ := collectGetR_ok 13 cf (buf.drop t)
+      rw [e1] at h
+      simp at h
+      obtain ⟨h1, h2⟩ := h
+      subst h1 h2
+      obtain ⟨hp, ht14, htl, _⟩ := recogGetR_sound cfg.env hdepth buf k t hs hg
+      have hp' : (parseG codec1 cfg.off.env buf).out = .ok (getFrameN buf k) t := hp
+      have hnp : namePanics cfg.off.nameGuard false (getFrameN buf k) = false := by
+        unfold namePanics getFrameN
+        rcases recogGetR_name 13 buf k t hg with hn | hn <;> rw [hn] <;> simp [isWsName_get]
+      have htxa : txAfter false (getFrameN buf k) = false := by
+        rcases recogGetR_name 13 buf k t hg with hn | hn <;>
+          simp [txAfter, cmdName, getFrameN, hn, upper, nameMULTI]
+      have hfp : fastPathC cfg.off false buf = .notFast := by simp [fastPathC, Config.off]
+      have hdl : (buf.drop t).length < F := by simp; omega
+      obtain ⟨i1, i2, i3⟩ := ih (buf.drop t) ks r F (hs.drop t) hdl e1
+      cases F with
+      | zero => omega
+      | succ F' =>
+        have hstep : seqLoop cfg.off (F' + 1) buf false =
+            (Action.exec (getFrameN buf k) .generic :: (seqLoop cfg.off F' (buf.drop t) false).1,
+             (seqLoop cfg.off F' (buf.drop t) false).2) := by
+          rw [seqLoop, hfp, hc, hp']
+          simp only [hnp, htxa, Bool.false_eq_true, if_false]
+        have hfuel := seqLoop_off_fuel cfg.off hu hc F' (F' + 1) (buf.drop t) false (hs.drop t)
+          (by simp; omega) (by simp; omega)
+        rw [hstep, hfuel]
+        refine ⟨by simp at e2; omega, ?_, ?_⟩
+        · simp only [List.map_cons, List.cons_append, i2]
+        · exact i3
+    · rw [hg] at h
+      simp at h
+      obtain ⟨h1, h2⟩ := h
+      subst h1 h2
+      simp
+
+/-- what the repaired SET collector consumes is what the loop with the recognisers off executes
+    first, frame by frame, on the generic path -/
+theorem collectSetR_off (cfg : Config) (hR : Repaired13 cfg) :
+    ∀ (cf : Nat) (buf : Bytes) (sets : List Val) (b1 : Bytes) (F : Nat), Small buf → buf.length < F →
+      collectSetR 13 cf buf = some (sets, b1) →
+      b1.length ≤ buf.length ∧
+      (seqLoop cfg.off F buf false).1 = sets.map (fun g => Action.exec g .generic) ++ (seqLoop cfg.off F b1 false).1 ∧
+      (seqLoop cfg.off F buf false).2 = (seqLoop cfg.off F b1 false).2 := by
+  obtain ⟨hrep, h13, hcodec, hdepth⟩ := hR
+  have hu : cfg.off.unrestricted = false := rfl
+  have hc : cfg.off.codec = codec1 := by simp [Config.off, hcodec]
+  intro cf
+  induction cf with
+  | zero =>
+    intro buf sets b1 F _ _ h
+    simp [collectSetR] at h
+    obtain ⟨h1, h2⟩ := h
+    subst h1 h2
+    simp
+  | succ cf ih =>
+    intro buf sets b1 F hs hF h
+    rw [collectSetR] at h
+    rcases recogSetR_cases 13 buf with ⟨k, v, t, hg⟩ | hg
+    · rw [hg] at h
+      simp only [] at h
+      obtain ⟨ks, r, e1, e2⟩ := collectSetR_ok 13 cf (buf.drop t)
+      rw [e1] at h
+      simp at h
+      obtain ⟨h1, h2⟩ := h
+      subst h1 h2
+      obtain ⟨hp, ht14, htl, _⟩ := recogSetR_sound cfg.env hdepth buf k v t hs hg
+      have hp' : (parseG codec1 cfg.off.env buf).out = .ok (setFrameN buf k v) t := hp
+      have hnp : namePanics cfg.off.nameGuard false (setFrameN buf k v) = false := by
+        unfold namePanics setFrameN
+        rcases recogSetR_name 13 buf k v t hg with hn | hn <;> rw [hn] <;> simp [isWsName_get]
+      have htxa : txAfter false (setFrameN buf k v) = false := by
+        rcases recogSetR_name 13 buf k v t hg with hn | hn <;>
+          simp [txAfter, cmdName, setFrameN, hn, upper, nameMULTI]
+      have hfp : fastPathC cfg.off false buf = .notFast := by simp [fastPathC, Config.off]
+      have hdl : (buf.drop t).length < F := by simp; omega
+      obtain ⟨i1, i2, i3⟩ := ih (buf.drop t) ks r F (hs.drop t) hdl e1
+      cases F with
+      | zero => omega
+      | succ F' =>
+        have hstep : seqLoop cfg.off (F' + 1) buf false =
+            (Action.exec (setFrameN buf k v) .generic :: (seqLoop cfg.off F' (buf.drop t) false).1,
+             (seqLoop cfg.off F' (buf.drop t) false).2) := by
+          rw [seqLoop, hfp, hc, hp']
+          simp only [hnp, htxa, Bool.false_eq_true, if_false]
+        have hfuel := seqLoop_off_fuel cfg.off hu hc F' (F' + 1) (buf.drop t) false (hs.drop t)
+          (by simp; omega) (by simp; omega)
+        rw [hstep, hfuel]
+        refine ⟨by simp at e2; omega, ?_, ?_⟩
+        · simp only [List.map_cons, List.cons_append, i2]
+        · exact i3
+    · rw [hg] at h
+      simp at h
+      obtain ⟨h1, h2⟩ := h
+      subst h1 h2
+      simp
+
+theorem noPath_batchActs (cfg : Config) (hrep : cfg.repaired = true) (fs : List Val) :
+    (batchActs cfg fs).map Action.noPath = fs.map (fun g => Action.exec g .generic) := by
+  unfold batchActs
+  split
+  · simp [Action.noPath, Function.comp_def]
+  · simp [hrep, Action.noPath, Function.comp_def]
+
+theorem noPath_execGeneric (fs : List Val) :
+    (fs.map (fun g => Action.exec g .generic)).map Action.noPath = fs.map (fun g => Action.exec g .generic) := by
+  simp [Action.noPath, Function.comp_def]
+
+/-- ONE READ: the repaired code does what it does with the recognisers off, up to the path label -/
+theorem onRead_transparent (cfg : Config) (hR : Repaired13 cfg) (hmax : cfg.maxBuffer < 72057594037927936)
+    (st : St) (chunk : Bytes) :
+    (onRead cfg st chunk).1 = (onRead cfg.off st chunk).1 ∧
+    (onRead cfg st chunk).2.map Action.noPath = (onRead cfg.off st chunk).2.map Action.noPath := by
+  have hR' := hR
+  obtain ⟨hrep, h13, hcodec, hdepth⟩ := hR
+  have hmb : cfg.off.maxBuffer = cfg.maxBuffer := rfl
+  unfold onRead
+  rw [hmb]
+  split
+  · exact ⟨rfl, rfl⟩
+  · split
+    · exact ⟨rfl, rfl⟩
+    · rename_i hnov
+      simp only []
+      have hs : Small (st.buf ++ chunk) := by unfold Small; simp; omega
+      have hoffgate : batchGate cfg.off st.inTx ((st.buf ++ chunk).length + 1) (st.buf ++ chunk) = some ([], st.buf ++ chunk) := by
+        unfold batchGate
+        simp [Config.off, hrep]
+      rw [hoffgate]
+      simp only [List.nil_append]
+      have hseq := seqLoop_transparent cfg hR'
+      by_cases hgate : (st.buf ++ chunk).length ≥ cfg.minPipeline ∧ ¬ st.inTx = true ∧ (cfg.repaired = true → cfg.unrestricted = true)
+      · -- the collectors run
+        have htx : st.inTx = false := by simpa using hgate.2.1
+        obtain ⟨gets, b1, eg, egl⟩ := collectGetR_ok 13 ((st.buf ++ chunk).length + 1) (st.buf ++ chunk)
+        obtain ⟨g1, g2, g3⟩ := collectGetR_off cfg hR' _ _ gets b1 ((st.buf ++ chunk).length + 1) hs (by omega) eg
+        have hsb1 : Small b1 := by unfold Small at *; omega
+        by_cases hmp : b1.length ≥ cfg.minPipeline
+        · obtain ⟨sets, b2, es, esl⟩ := collectSetR_ok 13 ((st.buf ++ chunk).length + 1) b1
+          obtain ⟨s1, s2, s3⟩ := collectSetR_off cfg hR' _ _ sets b2 ((st.buf ++ chunk).length + 1) hsb1 (by omega) es
+          have hsb2 : Small b2 := by unfold Small at *; omega
+          have hg : batchGate cfg st.inTx ((st.buf ++ chunk).length + 1) (st.buf ++ chunk) =
+              some (batchActs cfg gets ++ batchActs cfg sets, b2) := by
+            unfold batchGate collectGetC collectSetC
+            rw [if_pos hgate]
+            simp only [hrep, h13, if_true, eg, hmp, es]
+          rw [hg]
+          simp only []
+          have ht := hseq ((st.buf ++ chunk).length + 1) b2 st.inTx hsb2
+          rw [htx] at ht ⊢
+          have g31 := congrArg (fun x => x.1) g3
+          have g32 := congrArg (fun x => x.2.1) g3
+          have g33 := congrArg (fun x => x.2.2) g3
+          have s31 := congrArg (fun x => x.1) s3
+          have s32 := congrArg (fun x => x.2.1) s3
+          have s33 := congrArg (fun x => x.2.2) s3
+          refine ⟨?_, ?_⟩
+          · rw [g31, g32, g33, s31, s32, s33, ht.2.1, ht.2.2.1, ht.2.2.2]
+          · rw [g2, s2]
+            simp only [List.map_append, noPath_batchActs cfg hrep, noPath_execGeneric, ht.1, List.append_assoc]
+        · -- too little left for the SET collector
+          have hg : batchGate cfg st.inTx ((st.buf ++ chunk).length + 1) (st.buf ++ chunk) =
+              some (batchActs cfg gets, b1) := by
+            unfold batchGate collectGetC
+            rw [if_pos hgate]
+            simp only [hrep, h13, if_true, eg, hmp, if_false]
+          rw [hg]
+          simp only []
+          have ht := hseq ((st.buf ++ chunk).length + 1) b1 st.inTx hsb1
+          rw [htx] at ht ⊢
+          have g31 := congrArg (fun x => x.1) g3
+          have g32 := congrArg (fun x => x.2.1) g3
+          have g33 := congrArg (fun x => x.2.2) g3
+          refine ⟨?_, ?_⟩
+          · rw [g31, g32, g33, ht.2.1, ht.2.2.1, ht.2.2.2]
+          · rw [g2]
+            simp only [List.map_append, noPath_batchActs cfg hrep, noPath_execGeneric, ht.1]
+      · -- the gate is closed
+        have hg : batchGate cfg st.inTx ((st.buf ++ chunk).length + 1) (st.buf ++ chunk) = some ([], st.buf ++ chunk) := by
+          unfold batchGate
+          rw [if_neg hgate]
+        rw [hg]
+        simp only [List.nil_append]
+        have ht := hseq ((st.buf ++ chunk).length + 1) (st.buf ++ chunk) st.inTx hs
+        exact ⟨by rw [ht.2.1, ht.2.2.1, ht.2.2.2], ht.1⟩
+theorem reads_transparent (cfg : Config) (hR : Repaired13 cfg) (hmax : cfg.maxBuffer < 72057594037927936) :
+    ∀ (chunks : List Bytes) (st : St) (acts acts' : List Action), acts.map Action.noPath = acts'.map Action.noPath →
+      (chunks.foldl (fun (acc : St × List Action) c => let (s', a) := onRead cfg acc.1 c; (s', acc.2 ++ a)) (st, acts)).1 =
+      (chunks.foldl (fun (acc : St × List Action) c => let (s', a) := onRead cfg.off acc.1 c; (s', acc.2 ++ a)) (st, acts')).1 ∧
+      (chunks.foldl (fun (acc : St × List Action) c => let (s', a) := onRead cfg acc.1 c; (s', acc.2 ++ a)) (st, acts)).2.map Action.noPath =
+      (chunks.foldl (fun (acc : St × List Action) c => let (s', a) := onRead cfg.off acc.1 c; (s', acc.2 ++ a)) (st, acts')).2.map Action.noPath := by
+  intro chunks
+  induction chunks with
+  | nil => intro st acts acts' h; exact ⟨rfl, h⟩
+  | cons c cs ih =>
+    intro st acts acts' h
+    simp only [List.foldl_cons]
+    obtain ⟨t1, t2⟩ := onRead_transparent cfg hR hmax st c
+    rw [t1]
+    exact ih _ _ _ (by simp only [List.map_append, h, t2])
+
+/-- TRANSPARENCY: for EVERY byte stream in EVERY segmentation the repaired connection (HEADER_LEN = 13,
+    strict recognisers, collected commands always executed) does exactly what it does with the
+    recognisers switched off — the same frames, in the same order, the same protocol errors — up to
+    the label of the path that carried a frame -/
+theorem run_transparent (cfg : Config) (hR : Repaired13 cfg) (hmax : cfg.maxBuffer < 72057594037927936) (segs : List Bytes) :
+    (run cfg segs).map Action.noPath = (run cfg.off segs).map Action.noPath := by
+  unfold run feedSegs
+  have hrs : cfg.off.readSize = cfg.readSize := rfl
+  rw [hrs]
+  exact (reads_transparent cfg hR hmax _ St.init [] [] rfl).2
 end RedisVerif.Conn
